@@ -34,12 +34,14 @@ func (m *Machine) concStr(v Value, what string) string {
 }
 
 func (m *Machine) fresh(tag string, kind string, w int) *Term {
+	// the sort is part of the name: the same tag and position may be a bool on one path and a
+	// bit-vector on another, and a solver process outlives a path
 	name := fmt.Sprintf("%s#%d", tag, len(m.ndlog))
 	var t *Term
 	if kind == "bool" {
-		t = m.ctx.Var(name, SBool, 0)
+		t = m.ctx.Var(name+":b", SBool, 0)
 	} else {
-		t = m.ctx.Var(name, SBV, w)
+		t = m.ctx.Var(fmt.Sprintf("%s:%d", name, w), SBV, w)
 	}
 	m.ndlog = append(m.ndlog, NdRec{Tag: tag, Kind: kind, Terms: []*Term{t}})
 	return t
